@@ -1,7 +1,8 @@
 (* Addr04.v — which accessor methods a device gets (lir_transform::get_method incl. register / command
    refs: clone the target, apply the overrides, keep the ref's name), every call path with every valid
    index tuple and the first invalid index per level, and the read_all_registers items.
-   Block refs are outside this model (their output does not compile: D9).  Definitions only. *)
+   Block refs (since /repo's repair of D9 their output compiles): the ref's accessor has the ref's name, its own offset
+   and repeat (else the target's) and leads to the TARGET's objects.  Definitions only. *)
 From Coq Require Import ZArith List Bool String Ascii.
 From DD Require Import Common Mir GenErr AddrPath.
 Import ListNotations.
@@ -44,7 +45,23 @@ Definition method_of (all : list object) (o : object) : option meth :=
               m_rep := match rep with Some x => Some x | None => cm_repeat c end |}
     | _ => None
     end
-  | ORef _ _ (OvBlock _ _ _) => None
+  | ORef _ n (OvBlock target off rep) =>
+    match find_object all target with
+    | Some (OBlock _ _ toff trep _) =>
+      Some {| m_name := lower_str n; m_kind := KBlock;
+              m_addr := match off with Some a => a | None => toff end;
+              m_rep := match rep with Some x => Some x | None => trep end |}
+    | _ => None
+    end
+  end.
+
+(* the objects reached through a block accessor: the block's own, or the target's for a block ref *)
+Definition block_children (all : list object) (o : object) : option (list object) :=
+  match o with
+  | OBlock _ _ _ _ inner => Some inner
+  | ORef _ _ (OvBlock target _ _) =>
+    match find_object all target with Some (OBlock _ _ _ _ inner) => Some inner | _ => None end
+  | _ => None
   end.
 
 Definition indices (rep : option repeat) : list (option Z) :=
@@ -79,16 +96,18 @@ Fixpoint paths (fuel : nat) (all objs : list object) (prefix : string) (lv : lis
         flat_map (fun i =>
           let key := prefix ++ show_step m i in
           let lv' := (lv ++ [level_of m i])%list in
-          match o with
-          | OBlock _ _ _ _ inner =>
+          match block_children all o with
+          | Some inner =>
             (* the block accessor itself (it panics on the first invalid index) and everything below a valid one *)
             if index_valid (level_of m i) then paths f all inner (key ++ "/") lv' else [(key, lv')]
-          | _ => [(key, lv')]
+          | None => [(key, lv')]
           end) (indices (m_rep m))
       end) objs
   end.
 
-Definition size_fuel (d : device) : nat := S (fold_right (fun o acc => object_size o + acc)%nat O (d_objects d)).
+(* one unit per block level; a block ref adds the depth of its target, and accepted definitions are acyclic (D11 repaired),
+   so twice the tree size bounds every expansion *)
+Definition size_fuel (d : device) : nat := S (2 * fold_right (fun o acc => object_size o + acc)%nat O (d_objects d)).
 
 (* find_best_internal_address is modelled by the addr agent (C13); here IT and the address types are
    read off the real token stream and passed in. *)
@@ -141,8 +160,8 @@ Fixpoint read_all_blocks (fuel : nat) (it : ity) (all objs : list object) (prefi
   | S f =>
     (prefix, show_read_all it lv all objs) ::
     flat_map (fun o =>
-      match o, method_of all o with
-      | OBlock _ _ _ _ inner, Some m =>
+      match block_children all o, method_of all o with
+      | Some inner, Some m =>
         flat_map (fun i => if index_valid (level_of m i)
                            then read_all_blocks f it all inner (prefix ++ show_step m i ++ "/") (lv ++ [level_of m i])%list else [])
                  (indices (m_rep m))
